@@ -325,7 +325,14 @@ def record_random(rec, threads, tok, scratch, rng, nsteps, fresh):
 
 def validate_traces(ctx: Ctx, traces, name, workers):
     d = ctx.sub(name)
+    # one key universe for the whole batch (AllKeys is a constant of the module)
+    keys = sorted({k for t in traces for k in t[0]["keys"]})
+    full = lambda s: {k: s.get(k, K.ABSENT) for k in keys}  # noqa: E731
+    traces = [[{**t[0], "keys": keys, "store": full(t[0]["store"])}] + [{**r, "store": full(r["store"])} for r in t[1:]] for t in traces]
     (d / "traces.json").write_text(json.dumps(traces))
+    import os
+    if os.environ.get("G01_KEEP"):
+        open(os.environ["G01_KEEP"], "w").write(json.dumps(traces))
     res = tlc.require_ok(tlc.run_tlc("TraceKeyValueStore", "TraceKeyValueStore.cfg", d, workers=workers, cont=True,
                                      env={"TRACE_FILE": "traces.json"}, timeout=1800))
     ctx.add_tlc(res, f"TraceKeyValueStore.tla: {len(traces)} recorded runs, {sum(len(t) - 1 for t in traces)} transactions")
